@@ -144,12 +144,33 @@ func (h *handler) OnStreamWriteError(ctx *gortsplib.ServerHandlerOnStreamWriteEr
 
 // serverFixture is a started server (+ stream) and what is needed to probe it.
 type serverFixture struct {
-	srv    *gortsplib.Server
-	stream *gortsplib.ServerStream
-	desc   *description.Session
-	h      *handler
-	addr   string
-	ports  map[string]bool // local ports of the sockets the server opened ("tcp:<port>", "udp:<port>")
+	srv     *gortsplib.Server
+	stream  *gortsplib.ServerStream
+	desc    *description.Session
+	h       *handler
+	addr    string
+	nListen atomic.Int64
+	lmu     sync.Mutex
+	ledger  []ledgerEntry   // every socket the server obtained through Listen / Accept / ListenPacket
+	ports   map[string]bool // local ports of the sockets the server opened ("tcp:<port>", "udp:<port>")
+}
+
+func (fx *serverFixture) note(what string, c interface{ SetDeadline(time.Time) error }) {
+	fx.lmu.Lock()
+	fx.ledger = append(fx.ledger, ledgerEntry{what, c})
+	fx.lmu.Unlock()
+}
+
+func (fx *serverFixture) stillOpen() []string {
+	fx.lmu.Lock()
+	defer fx.lmu.Unlock()
+	var out []string
+	for _, e := range fx.ledger {
+		if e.open() {
+			out = append(out, e.what)
+		}
+	}
+	return out
 }
 
 func freeUDPPair() (int, error) {
@@ -183,6 +204,7 @@ type smallBufListener struct {
 	sndbuf int
 	rcvbuf int
 	stall  *atomic.Bool
+	note   func(string, interface{ SetDeadline(time.Time) error })
 }
 
 func (l *smallBufListener) Accept() (net.Conn, error) {
@@ -191,6 +213,9 @@ func (l *smallBufListener) Accept() (net.Conn, error) {
 		return c, err
 	}
 	if tc, ok := c.(*net.TCPConn); ok {
+		if l.note != nil {
+			l.note("tcp accepted "+tc.LocalAddr().String()+"<-"+tc.RemoteAddr().String(), tc)
+		}
 		if l.sndbuf > 0 {
 			tc.SetWriteBuffer(l.sndbuf)
 		}
@@ -212,17 +237,29 @@ type srvOpts struct {
 	stall        *atomic.Bool // non-nil: accepted connections stop reading when it is set
 	multicast    bool         // enable the UDP-multicast transport
 	backChannel  bool         // the stream has an ONVIF back-channel media
+	listenFail   int          // the Nth ListenPacket call of the server fails
+	tcpFail      bool         // net.Listen fails
 	seed         uint64
 }
 
 func startServer(rec *Rec, o srvOpts) (*serverFixture, error) {
+	fx, err := startServerFx(rec, o)
+	if err != nil {
+		return nil, err
+	}
+	return fx, nil
+}
+
+// startServerFx returns the fixture (with its socket ledger) also when Start failed.
+func startServerFx(rec *Rec, o srvOpts) (*serverFixture, error) {
 	fx := &serverFixture{h: &handler{rec: rec}, ports: map[string]bool{}}
 	var err error
 	for try := 0; try < 30; try++ {
 		p, perr := freeUDPPair()
 		if perr != nil {
-			return nil, perr
+			return fx, perr
 		}
+		fx.nListen.Store(0)
 		fx.srv = &gortsplib.Server{
 			Handler:        fx.h,
 			RTSPAddress:    "127.0.0.1:0",
@@ -231,12 +268,26 @@ func startServer(rec *Rec, o srvOpts) (*serverFixture, error) {
 			ReadTimeout:    2 * time.Second,
 			WriteTimeout:   o.writeTimeout,
 			WriteQueueSize: 64,
+			ListenPacket: func(network, address string) (net.PacketConn, error) {
+				if n := int(fx.nListen.Add(1)); o.listenFail > 0 && n == o.listenFail {
+					return nil, fmt.Errorf("listen %s %s: injected failure of call %d", network, address, n)
+				}
+				pc, lerr := net.ListenPacket(network, address)
+				if lerr == nil {
+					fx.note("udp "+pc.LocalAddr().String(), pc)
+				}
+				return pc, lerr
+			},
 			Listen: func(network, address string) (net.Listener, error) {
+				if o.tcpFail {
+					return nil, fmt.Errorf("listen %s %s: injected failure", network, address)
+				}
 				l, lerr := net.Listen(network, address)
 				if lerr != nil {
 					return nil, lerr
 				}
-				return &smallBufListener{Listener: l, sndbuf: o.sndbuf, rcvbuf: o.rcvbuf, stall: o.stall}, nil
+				fx.note("tcp listener "+l.Addr().String(), l.(*net.TCPListener))
+				return &smallBufListener{Listener: l, sndbuf: o.sndbuf, rcvbuf: o.rcvbuf, stall: o.stall, note: fx.note}, nil
 			},
 		}
 		if o.multicast {
@@ -253,11 +304,11 @@ func startServer(rec *Rec, o srvOpts) (*serverFixture, error) {
 			break
 		}
 		if !strings.Contains(err.Error(), "address already in use") {
-			return nil, err
+			return fx, err
 		}
 	}
 	if err != nil {
-		return nil, err
+		return fx, err
 	}
 	ta := fx.srv.NetListener().Addr().(*net.TCPAddr)
 	fx.addr = ta.String()
@@ -267,7 +318,7 @@ func startServer(rec *Rec, o srvOpts) (*serverFixture, error) {
 		fx.stream = &gortsplib.ServerStream{Server: fx.srv, Desc: fx.desc}
 		if err = fx.stream.Initialize(); err != nil {
 			fx.srv.Close()
-			return nil, err
+			return fx, err
 		}
 		fx.h.mu.Lock()
 		fx.h.stream = fx.stream
